@@ -324,7 +324,29 @@ impl<'de> serde::Deserializer<'de> for Value {
 	deserialize_number!(deserialize_u32);
 	deserialize_number!(deserialize_u64);
 	deserialize_number!(deserialize_u128);
-	deserialize_number!(deserialize_f32);
+
+	/// An `f32` is read from the spelling directly (`str::parse::<f32>` is
+	/// correctly rounded): going through `f64` first rounds twice and returns
+	/// the wrong neighbour for `7.038531e-26`. Integer spellings are delivered
+	/// as integers, as for every other number type.
+	fn deserialize_f32<V>(self, visitor: V) -> Result<V::Value, Self::Error>
+	where
+		V: serde::de::Visitor<'de>,
+	{
+		match self {
+			Value::Number(n) => {
+				if let Some(u) = n.as_u64() {
+					visitor.visit_u64(u)
+				} else if let Some(i) = n.as_i64() {
+					visitor.visit_i64(i)
+				} else {
+					visitor.visit_f32(n.as_str().parse().unwrap())
+				}
+			}
+			_ => Err(self.invalid_type(&visitor)),
+		}
+	}
+
 	deserialize_number!(deserialize_f64);
 
 	#[inline]
